@@ -47,6 +47,8 @@ class SpecSim(Sim):
         atoms += ['%s:*' % i for i in ids]
         atoms += ['*:%s' % v for v in vers]
         atoms += ids + ['nope']
+        # a specifier is matched against id:version, never against the language
+        atoms += sorted({d['language'] for d in docs.values()}) + ['en', 'EN', 'xx']
         atoms += ['nope:1', '%s:9.9' % ids[0], 'a*', 'a*:*', '*:1*', '?:*', 'a?:*', '[ab]*:*',
                   'a[^b]*:*', '*b:*', '??:*', 'a?', '[a-b]', 'a-*', '*:*.*', '*:?', '[!a]*:*',
                   '[^z]*:*', 'a[!-]*:*', '*:[^1]*', '[]a]*:*']
@@ -58,7 +60,7 @@ class SpecSim(Sim):
         for _ in range(14):
             k = rng.choice([2, 2, 3])
             specs.append(' '.join(rng.choice(atoms) for _ in range(k)))
-        langs = [None, None] + sorted({d['language'] for d in docs.values()}) + ['xx']
+        langs = [None, None] + sorted({d['language'] for d in docs.values()}) + ['xx', 'EN', 'en']
         return [(s, rng.choice(langs)) for s in specs]
 
     def check_specifiers(self):
